@@ -392,8 +392,9 @@ def main(argv=None):
         ev = {'property_id': pid, 'tier': tier, 'seed': seed, 'level': mod.LEVEL, 'coverage': cov,
               'assumptions': list(getattr(mod, 'ASSUMPTIONS', [])), 'wall_s': round(wall, 2),
               'violations': len(violations)}
-        os.makedirs(os.path.join(VERIF, 'evidence'), exist_ok=True)
-        with open(os.path.join(VERIF, 'evidence', pid + '.json'), 'w') as f:
+        evdir = os.environ.get('FJVERIF_EVIDENCE_DIR') or os.path.join(VERIF, 'evidence')
+        os.makedirs(evdir, exist_ok=True)
+        with open(os.path.join(evdir, pid + '.json'), 'w') as f:
             json.dump(ev, f, indent=1, default=str)
         print('%s %s: evaluations=%d distinct_nontrivial=%d excluded_known=%s discarded=%s skipped=%d wall=%.1fs' % (
             pid, tier, merged.evaluations, len(merged.nontrivial_hashes) + merged.extra_distinct, merged.excluded_known,
